@@ -24,7 +24,6 @@ Examples:
 import argparse
 import copy
 import os
-import re
 import sys
 
 import odml
@@ -118,7 +117,11 @@ class FormatConverter(object):
             for dir_path, _, file_names in os.walk(input_dir):
                 for file_name in file_names:
                     in_file_path = os.path.join(dir_path, file_name)
-                    out_dir = re.sub(r"" + input_dir, r"" + output_dir, dir_path)
+                    # The path below the input directory is kept below the output directory.
+                    # (The input path must not be used as a regular expression: characters
+                    # like '[', '(', '+' or '*' in it would leave the input directory in place.)
+                    out_dir = os.path.normpath(os.path.join(output_dir,
+                                                            os.path.relpath(dir_path, input_dir)))
                     out_file_path = os.path.join(out_dir, file_name)
                     cls._create_sub_directory(out_dir)
                     cls._convert_file(in_file_path, out_file_path, res_format)
